@@ -7,13 +7,15 @@ open List0
 open Names
 open Path
 open Protocol
+open Resume
 open Transfer
 open Wire
 
 val ft_feed :
   (byte list -> 'a1) -> ('a1 -> 'a1 -> bool) -> (byte list -> byte list
-  option) -> (byte list -> byte list option) -> tr_cfg -> path -> tr_rstate
-  -> 'a1 tr_msg list -> tr_rstate * 'a1 tr_msg list
+  option) -> (byte list -> byte list option) -> (byte list -> digest) ->
+  (byte list -> (src * coq_Z) option) -> tr_cfg -> path -> tr_rstate -> 'a1
+  tr_msg list -> tr_rstate * 'a1 tr_msg list
 
 val ft_line : 'a1 tr_msg -> 'a1 line
 
@@ -41,15 +43,16 @@ val ft_is_digest : 'a1 tr_msg -> bool
 
 val ft_run :
   (byte list -> 'a1) -> ('a1 -> 'a1 -> bool) -> (byte list -> byte list
-  option) -> (byte list -> byte list option) -> tr_cfg -> path -> tr_rstate
-  -> 'a1 ft_ghost -> 'a1 tr_msg list -> (tr_rstate * 'a1 tr_msg list) * 'a1
-  ft_saved list
+  option) -> (byte list -> byte list option) -> (byte list -> digest) ->
+  (byte list -> (src * coq_Z) option) -> tr_cfg -> path -> tr_rstate -> 'a1
+  ft_ghost -> 'a1 tr_msg list -> (tr_rstate * 'a1 tr_msg list) * 'a1 ft_saved
+  list
 
 val ft_receive :
   (byte list -> 'a1) -> ('a1 -> 'a1 -> bool) -> (byte list -> byte list
-  option) -> (byte list -> byte list option) -> tr_cfg -> path -> fs ->
-  tr_sched list -> 'a1 tr_msg list -> (tr_rstate * 'a1 tr_msg list) * 'a1
-  ft_saved list
+  option) -> (byte list -> byte list option) -> (byte list -> digest) ->
+  (byte list -> (src * coq_Z) option) -> tr_cfg -> path -> fs -> tr_sched
+  list -> 'a1 tr_msg list -> (tr_rstate * 'a1 tr_msg list) * 'a1 ft_saved list
 
 val ft_verdict :
   (byte list -> 'a1) -> ('a1 -> 'a1 -> bool) -> (byte list -> byte list
